@@ -59,6 +59,11 @@ def gen_pdo_cat(rng, unaligned=False):
                     gap = 8 - bitpos % 8
                     ents.append((0, 0, gap))
                     bitpos += gap
+                if rng.random() < 0.15:
+                    # a reserved byte / word between values (gap entry)
+                    g = rng.choice([8, 16, 8, 24])
+                    ents.append((0, 0, g))
+                    bitpos += g
                 bits = rng.choice([8, 16, 16, 32, 64])
                 ents.append((rng.randint(0x6000, 0x7fff), rng.randint(1, 32),
                              bits))
@@ -239,6 +244,22 @@ def check_case(case, res, prior=None):
         got = dict(ident=[term.vendorId, term.productCode, term.revisionNo,
                           term.serialNo],
                    eeprom={k: bytes(v) for k, v in term.eeprom.items()})
+        if prior is not None:
+            # two terminals read at the same time (a bus is initialised with
+            # gather): a second terminal with the other image on the bus
+            t2 = bus.SimTerminal("T2", eeprom=image(prior), station=34,
+                                 eeprom_8byte=not case["eight"])
+            t2.ee_busy_for = lambda: 1
+            b.terminals.append(t2)
+            term2 = Terminal(ec)
+            term2.position = 34
+            ta, tb = Terminal(ec), term2
+            ta.position = 33
+            await asyncio.gather(ta.read_eeprom(), tb.read_eeprom())
+            got["concurrent"] = [
+                {k: bytes(v) for k, v in ta.eeprom.items()},
+                {k: bytes(v) for k, v in tb.eeprom.items()}]
+            res.count("concurrent_eeprom_reads", 2)
         if 41 in term.eeprom:
             await term.write(0x800, data=term.eeprom[41])
             term.parse_sync_managers(term.eeprom[41])
@@ -284,6 +305,18 @@ def check_case(case, res, prior=None):
         bad = [k for k in set(want) | set(got["eeprom"])
                if want.get(k) != got["eeprom"].get(k)]
         problems.append(f"categories differ: types {bad[:5]}")
+    if "concurrent" in got:
+        want2 = {}
+        for tp, d in case["prior"]["cats"]:
+            d = bytes.fromhex(d)
+            want2[tp] = d + (b"\0" if len(d) % 2 else b"")
+        for who, g, w in (("first", got["concurrent"][0], want),
+                          ("second", got["concurrent"][1], want2)):
+            if g != w:
+                bad = [k for k in set(w) | set(g) if w.get(k) != g.get(k)]
+                problems.append(f"concurrent-reads: categories of the {who} "
+                                f"terminal differ when two terminals are "
+                                f"read at the same time: types {bad[:5]}")
     if "sm" in got:
         exp = dict(mbx_out=(None, None), mbx_in=(None, None),
                    pdo_out=(None, None), pdo_in=(None, None),
